@@ -50,8 +50,8 @@ class _VSelector(selectors.BaseSelector):
 
 
 # per-attempt outcomes
-REPLY, NO_REPLY, LATE_REPLY, TWO_REPLIES, ICMP_ERROR, CONN_LOST = range(6)
-OUTCOME_NAMES = ["reply", "no-reply", "late-reply", "two-replies", "icmp-error", "connection-lost"]
+REPLY, NO_REPLY, LATE_REPLY, TWO_REPLIES, ICMP_ERROR, CONN_LOST, CANCEL = range(7)
+OUTCOME_NAMES = ["reply", "no-reply", "late-reply", "two-replies", "icmp-error", "connection-lost", "cancelled-by-caller"]
 
 
 class ScriptedTransport(asyncio.DatagramTransport):
@@ -139,6 +139,8 @@ class ScriptedTransport(asyncio.DatagramTransport):
             self.loop.call_later(t / 4.0, self._error)
         elif self.outcome == CONN_LOST:
             self.loop.call_later(t / 4.0, self._conn_lost)
+        elif self.outcome == CANCEL:
+            self.loop.call_later(t / 4.0, self.loop.cancel_caller)
 
 
 class VLoop(asyncio.SelectorEventLoop):
@@ -155,6 +157,11 @@ class VLoop(asyncio.SelectorEventLoop):
 
     def time(self):
         return self.vtime
+
+    def cancel_caller(self):
+        self.log.append(("cancel", self.vtime))
+        if getattr(self, "caller_task", None) is not None:
+            self.caller_task.cancel()
 
     def reply_for(self, index: int, request: bytes) -> bytes:
         return b"reply-%d-to-" % index + request
